@@ -803,3 +803,124 @@ Qed.
 Corollary mode_parse_apply_idem : forall s md x, mode_of_string s = Ok md ->
   mode_apply md (mode_apply md x) = mode_apply md x.
 Proof. intros s md x _. apply mode_apply_idem. Qed.
+
+(* ======================================================================== *)
+(* part names, path level                                                     *)
+(* ======================================================================== *)
+Definition dir_prefix (d : bytes) : Prop := d = [] \/ exists d', d = d' ++ [slash].
+
+Lemma split_path_noslash f : ~ In slash f -> split_path f = ([], f).
+Proof.
+  induction f as [|b f IH]; intros H; [reflexivity|]. cbn [split_path].
+  rewrite IH by (intros Hf; apply H; right; exact Hf).
+  rewrite byte_eqb_neq by (intros ->; apply H; left; reflexivity). reflexivity.
+Qed.
+
+Lemma split_path_app d f : ~ In slash f -> dir_prefix d -> split_path (d ++ f) = (d, f).
+Proof.
+  intros Hf [->|[d' ->]]; [apply split_path_noslash, Hf|].
+  rewrite <- app_assoc. cbn [app]. induction d' as [|b d' IH].
+  - cbn [app split_path]. rewrite (split_path_noslash f Hf), byte_eqb_refl. reflexivity.
+  - cbn [app split_path]. rewrite IH. destruct d'; reflexivity.
+Qed.
+
+Lemma split_path_spec p : forall d f, split_path p = (d, f) -> p = d ++ f /\ ~ In slash f /\ dir_prefix d.
+Proof.
+  induction p as [|b p IH]; intros d f H.
+  - inversion H; subst. repeat split; [intros [] | left; reflexivity].
+  - cbn [split_path] in H. destruct (split_path p) as [d0 f0]. destruct (IH _ _ eq_refl) as (-> & Hf0 & Hd0).
+    destruct d0 as [|c d0].
+    + destruct (byte_eqb b slash) eqn:Eb; inversion H; subst.
+      * apply byte_eqb_eq in Eb. subst b. repeat split; [exact Hf0 | right; exists []; reflexivity].
+      * repeat split; [|left; reflexivity]. intros [->|Hin]; [rewrite byte_eqb_refl in Eb; discriminate | exact (Hf0 Hin)].
+    + inversion H; subst. repeat split; [exact Hf0|]. right.
+      destruct Hd0 as [Hd0|[d' Hd0]]; [discriminate|]. exists (b :: d'). rewrite Hd0. reflexivity.
+Qed.
+
+Lemma remove_part_name_free c f : c <> dot -> ~ In c f -> ~ In c (remove_part_name f).
+Proof.
+  intros Hc Hf. unfold remove_part_name. destruct (split_ext f) as [s [e|]] eqn:E; [|exact Hf].
+  destruct (split_ext_some _ _ _ E) as (-> & _ & _).
+  assert (Hs : ~ In c s) by (intros H; apply Hf, in_or_app; left; exact H).
+  assert (He : ~ In c e) by (intros H; apply Hf, in_or_app; right; right; exact H).
+  destruct (is_part_marker e); [exact Hs|].
+  destruct (split_ext s) as [s2 [e2|]] eqn:E2; [|exact Hf]. destruct (is_part_marker e2); [|exact Hf].
+  destruct (split_ext_some _ _ _ E2) as (-> & _ & _).
+  intros H. apply in_app_or in H. destruct H as [H|[H|H]];
+    [apply Hs, in_or_app; left; exact H | exact (Hc (eq_sym H)) | exact (He H)].
+Qed.
+
+Lemma insert_part_free c b m : c <> dot -> ~ In c b -> ~ In c m -> ~ In c (insert_part b m).
+Proof.
+  intros Hc Hb Hm.
+  assert (Happ : ~ In c (b ++ dot :: m))
+    by (intros H; apply in_app_or in H; destruct H as [H|[H|H]]; [exact (Hb H) | exact (Hc (eq_sym H)) | exact (Hm H)]).
+  unfold insert_part. destruct (split_ext b) as [s [e|]] eqn:E; [|exact Happ].
+  destruct (is_pna e); [|exact Happ]. destruct (split_ext_some _ _ _ E) as (-> & _ & _).
+  intros H. apply in_app_or in H. destruct H as [H|[H|H]]; [apply Hb, in_or_app; left; exact H | exact (Hc (eq_sym H)) |].
+  apply in_app_or in H. destruct H as [H|[H|H]]; [exact (Hm H) | exact (Hc (eq_sym H)) | apply Hb, in_or_app; right; right; exact H].
+Qed.
+
+Lemma insert_part_has_p b m : marker_str m -> In x70 (insert_part b m).
+Proof.
+  intros Hm. pose proof (marker_has_p m Hm) as Hp. unfold insert_part.
+  destruct (split_ext b) as [s [e|]]; [destruct (is_pna e)|];
+    apply in_or_app; right; right; [apply in_or_app; left|..]; exact Hp.
+Qed.
+
+Lemma has_p_file_name l : In x70 l -> is_file_name l = true.
+Proof.
+  intros H. unfold is_file_name.
+  rewrite !bytes_eqb_neq; [reflexivity | | | ]; intros ->; cbn in H; intuition discriminate.
+Qed.
+
+Lemma is_file_name_nonempty f : is_file_name f = true -> f <> [].
+Proof. intros H ->. discriminate H. Qed.
+
+Lemma with_part_name_free f n : ~ In slash f -> ~ In slash (with_part_name f n).
+Proof.
+  intros Hf. unfold with_part_name. apply insert_part_free; [discriminate | apply remove_part_name_free; [discriminate|exact Hf] |].
+  apply (marker_no slash); [reflexivity | cbn; intuition discriminate | apply part_marker_str].
+Qed.
+
+(* the laws on paths: whenever with_part answers (the last component is a file name) *)
+Theorem part_inv : forall p n q, with_part p n = Some q ->
+  remove_part q = remove_part p /\ (forall m, with_part q m = with_part p m).
+Proof.
+  intros p n q. unfold with_part at 1. destruct (split_path p) as [d f] eqn:Ep.
+  destruct (is_file_name f && is_file_name (remove_part_name f)) eqn:Ev; [|discriminate].
+  intros H. inversion H; subst q. clear H. apply andb_true_iff in Ev. destruct Ev as [Ef Er].
+  destruct (split_path_spec p d f Ep) as (Hp & Hf & Hd).
+  pose proof (is_file_name_nonempty f Ef) as Hne.
+  assert (Hq : split_path (d ++ with_part_name f n) = (d, with_part_name f n))
+    by (apply split_path_app; [apply with_part_name_free, Hf | exact Hd]).
+  assert (Hw : is_file_name (with_part_name f n) = true)
+    by (apply has_p_file_name, insert_part_has_p, part_marker_str).
+  destruct (part_name_inv f n 0 Hne) as [Hrem _].
+  split.
+  - unfold remove_part. rewrite Hq, Ep, Hw, Ef, Hrem. reflexivity.
+  - intros m. unfold with_part. rewrite Hq, Ep, Hw, Hrem, Ef, Er. cbn [andb].
+    rewrite (proj2 (part_name_inv f n m Hne)). reflexivity.
+Qed.
+
+(* a path that is not itself a part name comes back exactly *)
+Corollary part_inv_base : forall p n q, remove_part p = Some p -> with_part p n = Some q ->
+  remove_part q = Some p /\ (forall m, with_part q m = with_part p m).
+Proof. intros p n q Hb Hw. destruct (part_inv p n q Hw) as [H1 H2]. rewrite H1. split; assumption. Qed.
+
+(* with_part answers exactly when the base name is a file name *)
+Lemma with_part_defined p n : (exists q, with_part p n = Some q) <->
+  is_file_name (snd (split_path p)) && is_file_name (remove_part_name (snd (split_path p))) = true.
+Proof.
+  unfold with_part. destruct (split_path p) as [d f]. cbn [snd].
+  destruct (is_file_name f && is_file_name (remove_part_name f)); split;
+    [reflexivity | intros _; eexists; reflexivity | intros [q H]; discriminate | discriminate].
+Qed.
+
+(* two different base names never share a part file *)
+Corollary part_no_collision : forall p p' n n' q, remove_part p = Some p -> remove_part p' = Some p' ->
+  with_part p n = Some q -> with_part p' n' = Some q -> p = p'.
+Proof.
+  intros p p' n n' q Hb Hb' Hw Hw'.
+  destruct (part_inv_base p n q Hb Hw) as [H1 _]. destruct (part_inv_base p' n' q Hb' Hw') as [H2 _]. congruence.
+Qed.
